@@ -1,5 +1,5 @@
 # plan and claim for C10 (SM9 schemes); J and both are injected by driver/plan.py
-_ALL = ["avx2", "avx", "sse", "scalar", "noadx", "noaes", "purego"]
+_ALL = ["avx2", "avx", "sse", "scalar", "noadx", "noaes", "purego", "ia32"]
 
 PLAN = dict(
     level="exploration",
@@ -27,7 +27,7 @@ PLAN = dict(
          "plus wrong uid / hid / message / key. A case is distinct by its class key (configuration | kind / uid mod 64 / hid / KDF "
          "block class / mode / encoding / artefact chunk).",
     jobs=both("c10.transcript", _ALL, shards=(3, 9), floor=600)
-         + both("c10.keys", ["avx2", "avx", "noadx", "purego"], shards=(1, 4), floor=36)
+         + both("c10.keys", ["avx2", "avx", "noadx", "purego", "ia32"], shards=(1, 4), floor=36)
          + both("c10.sound", ["avx2", "purego"], shards=(4, 16), floor=100),
     assumptions=[
         "reference H1/H2/KDF/MAC/mode/DER/G1 code in harness/ref/sm9 is right (self-validated against the GM/T 0044.5 annex A-D values "
